@@ -132,6 +132,22 @@ func runRoundTrip(c *harness.Ctx) harness.Result {
 		strs["focus"] = "main|foo" // session config differs from the defaults
 		sessN = "main|foo"
 	}
+	if r.Intn(5) == 0 {
+		// the settings file is a relative symbolic link into another directory (dotfile managers
+		// do that); pprof's working directory is yet another one
+		real := filepath.Join(c.Tmp, "dotfiles", "pprof")
+		os.MkdirAll(real, 0o755)
+		os.MkdirAll(filepath.Dir(path), 0o755)
+		os.WriteFile(filepath.Join(real, "settings.json"), []byte("{}"), 0o644)
+		os.Symlink("../../dotfiles/pprof/settings.json", path)
+		wd := filepath.Join(c.Tmp, "elsewhere")
+		os.MkdirAll(wd, 0o755)
+		if old, err := os.Getwd(); err == nil {
+			defer os.Chdir(old)
+		}
+		os.Chdir(wd)
+		c.Stat("symlinked_settings", 1)
+	}
 	web, err := drv.StartWeb(&drv.MapFetcher{Profiles: map[string]*profile.Profile{"p": smallProfile()}}, []string{"p"}, nil, strs, nil)
 	if err != nil {
 		return harness.Result{Verdict: harness.Inconclusive, Detail: err.Error()}
@@ -808,7 +824,7 @@ func init() {
 		ID:          "C19",
 		Level:       "fault_enumeration",
 		CaseTimeout: 15 * time.Minute,
-		Rule:        "part roundtrip: 4-9 save/delete operations per session over 5 configuration names and 28 URL parameters (valid values, default values, empty = unset, one invalid value), through the real /saveconfig and /deleteconfig handlers in a private XDG_CONFIG_HOME; after every operation: stored names and order, every other stored entry byte-identical, every stored configuration present in the Config menu with every saved parameter (modulo default elision; unset = session value), and /top with the menu URL equals /top with the original parameters. part writefault (fault enumeration): the operation runs in a child with RLIMIT_FSIZE = k for k at 10 positions around the old/new sizes (quick) or EVERY byte 0..len+8 (thorough); afterwards the file must equal the complete previous or the complete new contents and an operation without effect must report an error; then a fault-free follow-up operation (a delete or a short save, giving a shorter document) in the same directory must produce exactly what it produces without the earlier fault. part kill (fault enumeration): a tracing pass under strace lists every syscall of the operation that touches the settings file (and every write/fsync/fchmod/close/ftruncate); then one run per (syscall name, ordinal) with SIGKILL injected just before it; same outcome rule, same follow-up operation. part concurrent: 2-6 client goroutines issue 5 operations each (save with unique values, delete, list) while the pause hook between read and write yields; the recorded history (one atomic clock) is checked with porcupine against a sequential map model; unparseable reads count as torn. non-trivial = every case (concurrent: at least one really overlapping pair); distinct = case; distinct_observed = syscall kinds killed at",
+		Rule:        "part roundtrip: 4-9 save/delete operations per session over 5 configuration names and 28 URL parameters (valid values, default values, empty = unset, one invalid value), through the real /saveconfig and /deleteconfig handlers in a private XDG_CONFIG_HOME (every fifth session with settings.json being a relative symbolic link into another directory while pprof runs in a third one); after every operation: stored names and order, every other stored entry byte-identical, every stored configuration present in the Config menu with every saved parameter (modulo default elision; unset = session value), and /top with the menu URL equals /top with the original parameters. part writefault (fault enumeration): the operation runs in a child with RLIMIT_FSIZE = k for k at 10 positions around the old/new sizes (quick) or EVERY byte 0..len+8 (thorough); afterwards the file must equal the complete previous or the complete new contents and an operation without effect must report an error; then a fault-free follow-up operation (a delete or a short save, giving a shorter document) in the same directory must produce exactly what it produces without the earlier fault. part kill (fault enumeration): a tracing pass under strace lists every syscall of the operation that touches the settings file (and every write/fsync/fchmod/close/ftruncate); then one run per (syscall name, ordinal) with SIGKILL injected just before it; same outcome rule, same follow-up operation. part concurrent: 2-6 client goroutines issue 5 operations each (save with unique values, delete, list) while the pause hook between read and write yields; the recorded history (one atomic clock) is checked with porcupine against a sequential map model; unparseable reads count as torn. non-trivial = every case (concurrent: at least one really overlapping pair); distinct = case; distinct_observed = syscall kinds killed at",
 		Assumptions: []string{"kill = SIGKILL on syscall entry (strace fault injection); power loss / page-cache loss is out of reach", "porcupine timeout 30 s => inconclusive", "stray temporary files are allowed after a fault"},
 		Parts: []harness.Part{
 			{Name: "roundtrip", Quick: 300, Thor: 20000, Run: runRoundTrip},
